@@ -40,7 +40,21 @@ const KINDS: &[Kind] = &[
     Kind { name: "type: not int", body: &["x := not 1"], top: &[], either: false },
     Kind { name: "break outside loop", body: &["break"], top: &[], either: false },
     Kind { name: "git conflict marker", body: &[], top: &["<<<<<<< HEAD"], either: false },
+    // constructs that mention ANOTHER file's namespace (@NS@): the error belongs to the using file
+    Kind { name: "unresolved name in another namespace", body: &["x := @NS@.undefined_q"], top: &[], either: false },
+    Kind { name: "unresolved function in another namespace", body: &["@NS@.undefined_fn_q(1)"], top: &[], either: false },
+    Kind { name: "namespace used as a value", body: &["x := @NS@"], top: &[], either: false },
+    Kind { name: "unknown type in another namespace", body: &["x: @NS@.Nope_q = 1"], top: &[], either: false },
+    Kind { name: "type: imported constant + str", body: &["x := @NS@.exp_q + \"s\""], top: &[], either: false },
+    Kind { name: "type: arity of imported function", body: &["@NS@.lit2_q(1, 2)"], top: &[], either: false },
+    Kind { name: "type: unknown field of imported blob", body: &["x := @NS@.HB_q { g: 1 }"], top: &[], either: false },
+    Kind { name: "assignment to imported constant", body: &["@NS@.exp_q = 3"], top: &[], either: false },
+    Kind { name: "type: field of imported int", body: &["x := @NS@.exp_q.nofield"], top: &[], either: false },
+    Kind { name: "from-import of a missing name", body: &[], top: &["from @NS@ use (nope_q)"], either: false },
+    Kind { name: "from-import colliding with a definition", body: &[], top: &["from @NS@ use (exp_q)", "exp_q :: 3"], either: true },
 ];
+
+const NS_EXPORTS: &str = "exp_q :: 7\nlit2_q :: fn a: int -> int do\n    a\nend\nHB_q :: blob {\n    f: int,\n}\n";
 
 #[derive(Clone, Copy, PartialEq, Debug)]
 enum Shape {
@@ -98,8 +112,12 @@ struct Built {
 
 fn build(rng: &mut Rng, kind: &Kind, shape: Shape, where_: usize) -> Built {
     // where_: 0 = main file, 1 = first import, 2 = a later import
-    let nfiles = 1 + where_.max(rng.below(3));
+    let uses_ns = kind.body.iter().chain(kind.top.iter()).any(|l| l.contains("@NS@"));
+    let nfiles = (1 + where_.max(rng.below(3))).max(if uses_ns { 2 } else { 1 });
     let names = ["main.sy", "first.sy", "later.sy"];
+    // the other namespace: `first` for a plant in main, `main` otherwise
+    let ns_file = if where_ == 0 { 1 } else { 0 };
+    let ns_name = names[ns_file].trim_end_matches(".sy");
     let ind = if shape == Shape::Tabs || (shape == Shape::Mixed && rng.chance(1, 2)) { "\t" } else { "    " };
     let mut files = Files::new();
     let mut uid = 0u32;
@@ -115,13 +133,16 @@ fn build(rng: &mut Rng, kind: &Kind, shape: Shape, where_: usize) -> Built {
         if fi == 0 {
             t.push_str(&format!("lit_q :: fn a: int -> int do\n{}a\nend\n", ind));
         }
+        if uses_ns && fi == ns_file {
+            t.push_str(NS_EXPORTS);
+        }
         if fi == where_ {
             if !kind.top.is_empty() {
                 for (k, l) in kind.top.iter().enumerate() {
                     if kind.either || k == kind.top.len() - 1 {
                         lines.push(t.matches('\n').count() + 1);
                     }
-                    t.push_str(l);
+                    t.push_str(&l.replace("@NS@", ns_name));
                     t.push('\n');
                     if k + 1 < kind.top.len() {
                         filler_top(rng, shape, &mut uid, &mut t);
@@ -137,6 +158,7 @@ fn build(rng: &mut Rng, kind: &Kind, shape: Shape, where_: usize) -> Built {
                     }
                     // `lit_q` lives in main
                     let l = if fi != 0 { l.replace("lit_q(", "main.lit_q(") } else { l.to_string() };
+                    let l = l.replace("@NS@", ns_name);
                     t.push_str(&format!("{}{}\n", ind, l));
                     if k + 1 < kind.body.len() {
                         filler_stmt(rng, shape, &mut uid, ind, &mut t);
@@ -149,7 +171,7 @@ fn build(rng: &mut Rng, kind: &Kind, shape: Shape, where_: usize) -> Built {
         filler_top(rng, shape, &mut uid, &mut t);
         if fi == 0 {
             t.push_str(&format!("start :: fn do\n{}z := 1\nend\n", ind));
-        } else if kind.body.iter().any(|l| l.contains("lit_q")) && fi == where_ {
+        } else if (uses_ns || kind.body.iter().any(|l| l.contains("lit_q"))) && fi == where_ {
             t = format!("use main\n{}", t);
             for l in lines.iter_mut() {
                 *l += 1;
@@ -236,7 +258,7 @@ impl Check for C15 {
         Finish {
             level: "exploration",
             rule: format!(
-                "one local error of {} kinds (syntax x9, unresolved name x2, duplicate global, assignment to constant, literal type mismatches x4, break outside loop, conflict marker) is planted at a known line of the main file, the first or a later imported file; the rest of the project is valid text of one of {} shapes (plain ASCII, non-ASCII comments/strings, string literals spanning lines, CRLF, tabs, 1500-3000 character lines, runs of blank lines, mixed). Oracle: file and span.line_start of the first returned error equal the planted file and line (either definition line for duplicates). Non-trivial & distinct: (kind, file position, shape, instance).",
+                "one local error of {} kinds (syntax x9, unresolved name x2, duplicate global, assignment to constant, literal type mismatches x4, break outside loop, conflict marker, 11 constructs that mention another file's namespace: unresolved/mistyped qualified accesses, namespace as value, from-imports) is planted at a known line of the main file, the first or a later imported file; the rest of the project is valid text of one of {} shapes (plain ASCII, non-ASCII comments/strings, string literals spanning lines, CRLF, tabs, 1500-3000 character lines, runs of blank lines, mixed). Oracle: file and span.line_start of the first returned error equal the planted file and line (either definition line for duplicates). Non-trivial & distinct: (kind, file position, shape, instance).",
                 KINDS.len(),
                 SHAPES.len()
             ),
